@@ -279,12 +279,24 @@ def _f10(op, a, out, msg):
     import re
     if op.name != "garbage" or out != "Timeout" or not a[0].startswith("rec"):
         return False
-    mt = re.match(r"^R(\d+)/", a[1])
+    mt = re.match(r"^R(\d*)/", a[1])
     if not mt:
         return False
-    reps = int(mt.group(1))
+    # an unbounded recurrence derives no far bound, but stepping it once already spans its interval
+    reps = int(mt.group(1)) if mt.group(1) else 2
     if reps > 10 ** 6:
         return True
+    # ... or two given anchors (start/second-point notation) more than 1e7 days apart
+    parts = a[1].split("/")
+    if len(parts) == 3 and not parts[1].startswith(("P", "-P")) and not parts[2].startswith(("P", "-P")):
+        try:
+            from metomi.isodatetime.parsers import TimePointParser
+            tp = TimePointParser(allow_truncated=a[0].endswith("trunc"), assumed_time_zone=(0, 0))
+            y1, y2 = tp.parse(parts[1]).year, tp.parse(parts[2]).year
+            if y1 is not None and y2 is not None and abs(y2 - y1) * 365 * max(reps - 1, 1) > 10 ** 7:
+                return True
+        except Exception:
+            pass
     # ... or a derived far bound more than 1e7 days from the anchor: (reps - 1) x a huge interval
     days = 0.0
     for part in a[1].split("/")[1:]:
